@@ -86,8 +86,35 @@ def main():
     eq(ev(['rsmul', L('L2sqT3'), '0'], x), 1 + 0.25 + 4)         # f(0 * x) = f(0)
     eq(ev(['comp', ['rsmul', P, '2'], L('Mat33')], x), [36, 20.25, 25])     # (A*a)*B = A(a B x)
     eq(ev(['rsmul', L('ReC'), '1j'], z), [1, -2])                # Re(i z)
+    # leaves that hand back their argument, extended scalars (values by hand; the reference uses
+    # the mathematical value as a Python float / complex whatever type the user passes)
+    eq(ev(L('Re3'), x), [1, -2, 0.5])
+    eq(ev(L('View3'), x), [1, -2, 0.5])
+    assert ev(L('Re3'), x) is not x and not np.shares_memory(ev(L('View3'), x), x)
+    eq(ev(['add', L('Re3'), P], x), [2, 2, 0.75])
+    t, h = 2.0 ** -30, 2.0 ** 30
+    eq(ev(['lsmul', 'tiny', P], x), [t, 4 * t, 0.25 * t])
+    eq(ev(['rsmul', P, 'tiny'], x), [t * t, 4 * t * t, 0.25 * t * t])
+    eq(ev(['div', P, 'tiny'], x), [h * h, 4 * h * h, 0.25 * h * h])
+    eq(ev(['lsmul', 'huge', ['lsmul', 'tiny', L('L2sq3')]], x), 5.25)
+    eq(ev(['div', ['rsmul', L('L1_3'), 'tiny'], 'tiny'], x), 3.5)
+    eq(ev(['lsmul', 'near1', L('L2sq3')], x), 5.25 + 5.25 * 2.0 ** -20)
+    eq(ev(['lsmul', 'tinyj', L('L2sqC')], z), 6j * t)
+    eq(ev(['lsmul', 'f64:2', P], x), [2, 8, 0.5])
+    eq(ev(['ssub', 'i64:-1', P], x), [-2, -5, -1.25])
+    eq(ev(['rsmul', L('L2sqT3'), 'f64:0'], x), 5.25)
+    eq(ev(['rsmul', L('ReC'), 'c128:1j'], z), [1, -2])
+    for k, v in A.SCALAR_VALUE.items():
+        assert type(v) in (float, complex) and v == A.SCALARS[k], k
+        assert eval(A.SCALAR_SRC[k], {'np': np}) == A.SCALARS[k], k
+        assert type(eval(A.SCALAR_SRC[k], {'np': np})) is type(A.SCALARS[k]), k
+    assert A.SCALAR_VALUE['tiny'] == 1.0 / 1073741824 and A.SCALAR_VALUE['tiny'] < 1e-8
+    assert A.overload(['lsmul', 'f64:0', P]) == '0*A' and A.scalar_regime(['rsmul', P, 'tiny']) == ';a=tiny'
+    assert A.scalar_regime(['rsmul', P, '2']) == '' and A.scalar_regime(['neg', P]) == ''
     # typing
     T = A.typeof
+    assert T(['lsmul', 'tinyj', P]) is None and T(['lsmul', 'c128:1j', L('PowC')]) is not None
+    assert T(['div', P, 'f64:0']) is None and T(['div', P, 'tiny'])[:3] == ('R3', 'R3', False)
     assert T(['lsmul', '1j', P]) is None and T(['rsmul', L('ReC'), '1j'])[:2] == ('C2', 'R2')
     assert T(['lsmul', '1j', L('ReC')]) is None
     assert T(['comp', P, L('Mat23')]) is None and T(['comp', L('Mat23'), P])[:2] == ('R3', 'R2')
@@ -102,6 +129,13 @@ def main():
     assert not A.ref_is_linear(L('Abs3'), T(L('Abs3')))
     assert not A.ref_is_linear(L('Aff3'), T(L('Aff3')))
     assert A.ref_is_linear(['lsmul', '0', P], T(P))
+    # ... is a statement relative to the size of the values: scaling does not make Pow3 linear
+    for a in ('tiny', 'huge', 'near1'):
+        assert not A.ref_is_linear(['lsmul', a, P], T(P)), a
+        assert not A.ref_is_linear(['lsmul', a, L('Norm3')], T(L('Norm3'))), a
+        assert A.ref_is_linear(['lsmul', a, L('Mat33')], T(L('Mat33'))), a
+        assert A.ref_is_linear(['rsmul', L('IP3'), a], T(L('IP3'))), a
+    assert A.ref_is_linear(['lsmul', 'f64:0', L('Norm3')], T(L('Norm3')))
     # exactness tracking
     tr = A.new_track(); ev(['pow', P, 3], x, tr); assert tr[1] and tr[0] == 256.0
     tr = A.new_track(); ev(L('Norm3'), x, tr); assert not tr[1]
@@ -116,6 +150,21 @@ def main():
             seen.add(k)
     c = L('Pow3')
     rs = A.roots_over(c, A.FULL)
+    # extended scalars: every scalar form (no `@` synonyms) as a root; only a*E, E*a, E/a with
+    # the magnitude scalars are children of larger expressions
+    for a in ('tiny', 'huge', 'near1', 'f64:2', 'i64:-1'):
+        for r in (['lsmul', a, c], ['rsmul', c, a], ['div', c, a], ['adds', c, a], ['ssub', a, c]):
+            assert r in rs, r
+        assert ['lsmatmul', a, c] not in rs
+    assert ['lsmul', 'tinyj', c] not in rs and ['lsmul', 'f64:0', c] in rs
+    assert ['div', c, 'f64:0'] not in rs
+    l1 = A.level(A.FULL, 1)
+    assert ['lsmul', 'tiny', c] in l1 and ['div', c, 'huge'] in l1 and ['rsmul', c, 'tiny'] in l1
+    assert ['adds', c, 'tiny'] not in l1 and ['lsmul', 'near1', c] not in l1
+    assert ['lsmul', 'f64:2', c] not in l1 and ['lsmul', '2', c] in l1
+    assert ['add', L('Re3'), c] in A.roots_over(L('Re3'), A.FULL)
+    assert ['sumtmp', L('View3'), c] in A.roots_over(L('View3'), A.FULL)
+    assert A.alias_safe(['add', L('Re3'), L('View3')])
     assert ['rsmul', c, '1j'] not in rs and ['rsmul', c, '0'] in rs and ['div', c, '0'] not in rs
     assert A.unspecified(['rsmul', L('PowR'), '2']) and not A.unspecified(['lsmul', '2', L('PowR')])
     assert A.src(['comp', ['rsmul', P, '2'], L('Id3')]) == \
